@@ -95,6 +95,16 @@ Proof.
     try (right; split; [intros X; apply Hno in X; congruence|auto]).
 Qed.
 
+(* both ends are excluded, also in the wrap-around case: a hash equal to the owner hash is a
+   match, a hash equal to the next hash belongs to the next existing name - neither is covered *)
+Theorem nsec3_in_range_strict t o n : nsec3_in_range t o n = true -> t <> o /\ t <> n.
+Proof.
+  intros H. apply nsec3_in_range_spec in H. unfold hlt in H.
+  split; intros ->.
+  - rewrite lex_cmp_refl in H. destruct H as [(_ & H & _)|(H1 & [H|H])]; try discriminate. apply H1, H.
+  - rewrite lex_cmp_refl in H. destruct H as [(_ & _ & H)|(H1 & [H|H])]; try discriminate. apply H1, H.
+Qed.
+
 Example nsec3_in_range_ex :
   nsec3_in_range [5] [1] [9] = true /\ nsec3_in_range [1] [1] [9] = false /\ nsec3_in_range [9] [1] [9] = false /\
   nsec3_in_range [250] [200] [10] = true /\ nsec3_in_range [3] [200] [10] = true /\ nsec3_in_range [100] [200] [10] = false /\
